@@ -85,7 +85,9 @@ fn deg_mod(value: f64) -> f64 {
     let turn = 360.;
     let value = value % turn;
     if value.is_sign_negative() {
-        value + turn
+        // A tiny negative value (or -0) plus a turn rounds to a full turn.
+        let value = value + turn;
+        if value >= turn { 0. } else { value }
     } else {
         value
     }
